@@ -17,8 +17,8 @@ package gzip
 
 //@ unit gzip_response_writer frames=on props=C18 filter=`gzip\.gzipResponseWriter\)\.(WriteHeader|Write)$`
 //@ // the compressing writers add Write/WriteHeader of their own; what reaches them through embedding writes no body bytes
-//@ type gzipResponseWriter promotes Header, Hijack, Flush, CloseNotify, Push
-//@ type ResponseFilterWriter promotes Header, Hijack, Flush, CloseNotify, Push, Writer
+//@ type gzipResponseWriter promotes Header, Hijack, Flush, CloseNotify, Push declares WriteHeader, Write, Writer
+//@ type ResponseFilterWriter promotes Header, Hijack, Flush, CloseNotify, Push, Writer declares WriteHeader, Write
 //@ // the compressing writer itself: committing its header always announces Content-Encoding: gzip first, and every body
 //@ // write goes through the gzip writer after the header has been committed exactly once (what the filter writer assumes)
 //@ ghost gzAnnounced int
